@@ -5,6 +5,7 @@ All statements are about the definitions in `Gen/Study.lean` and `Gen/Pyramid.le
 which are regenerated from `toasty/study.py` / `toasty/pyramid.py` on every run.
 -/
 import ToastyVerif.Gen.Study
+import ToastyVerif.Gen.Plumbing
 
 
 namespace C08
@@ -258,5 +259,9 @@ example : (init 257 3).map (fun t => (t.p2n, t.tile_levels, t.img_gx0, t.img_gy0
 example : ((init 700 1025).bind (fun t => compute_for_subimage t 300 5 200 700)).map
     (fun s => (s.p2n, s.img_gx0, s.img_gy0, count_populated_positions s)) = some (2048, 974, 516, 6) := by
   decide +kernel
+
+/-- **entry_points**: the call sites through which this property's workflows reach the modelled functions have, in the source as
+it is now, the argument plumbing the model assumes (facts re-extracted on every run, `Gen/Plumbing.lean`) -/
+theorem entry_points : Gen.Plumbing.builder_execute_uses_given_tiling = true ∧ Gen.Plumbing.multi_tan_subimage_offsets = true := by decide
 
 end C08
